@@ -12,6 +12,7 @@ import (
 	"os"
 	"runtime/debug"
 	"sort"
+	"strconv"
 	"strings"
 	"testing"
 
@@ -491,6 +492,16 @@ func genPipe(rt *rapid.T, tier string, op pipeGenOpts) *PipeCase {
 	if op.rootedRef && rapid.IntRange(0, 2).Draw(rt, "rootref") == 0 {
 		all := refm.all()
 		refm = rootAtRandom(refm, all, r)
+	}
+	if rapid.IntRange(0, 3).Draw(rt, "refsupports") == 0 {
+		// a reference that already carries supports (a previous run, aLRT values): percentages or fractions
+		for _, x := range innerNodes(refm) {
+			if rapid.Bool().Draw(rt, "pct") {
+				x.Label = strconv.Itoa(rapid.IntRange(0, 100).Draw(rt, "oldsup"))
+			} else {
+				x.Label = strconv.FormatFloat(float64(rapid.IntRange(0, 8).Draw(rt, "oldsupf"))/8, 'f', -1, 64)
+			}
+		}
 	}
 	pc.Ref = refm.Newick()
 	pc.Cpus = []int{1, 2, 3, 4, 8, 16}[rapid.IntRange(0, 5).Draw(rt, "cpus")]
